@@ -54,9 +54,9 @@ KG(k) == Ev.state.acct[k].g
 StateClauses(obs, h2) ==
      {V("C01", "conservation", [k |-> k]) : k \in {k \in AcctKeys(obs) : k \in DOMAIN h2.credited /\ ~ConservationAt(obs, h2, KU(k), KG(k))}}
   \cup (IF meta.wb THEN {V("C06", "no_overdraft", [k |-> k]) : k \in {k \in DOMAIN obs.acct : ~NoOverdraftAt(obs, k)}} ELSE {})
-  \cup {V("C02", "exactly_once", [ref |-> r]) : r \in {r \in DOMAIN h2.sess : ~ExactlyOnceAt(obs, h2, r)}}
-  \cup {V("C02", "record_identity", [ref |-> r]) : r \in {r \in DOMAIN h2.sess : ~RecordIdentityAt(obs, h2, r)}}
-  \cup {V("C10", "ref_designates", [ref |-> r]) : r \in {r \in DOMAIN h2.sess : h2.sess[r].live /\ ~ExactlyOnceAt(obs, h2, r)}}
+  \cup {V("C02", "exactly_once", [lost |-> Len(SessionConts(obs, h2.sess[r].u, r)) < Len(h2.sess[r].ids)]) : r \in {r \in DOMAIN h2.sess : ~ExactlyOnceAt(obs, h2, r)}}
+  \cup {V("C02", "record_identity", [live |-> h2.sess[r].live]) : r \in {r \in DOMAIN h2.sess : ~RecordIdentityAt(obs, h2, r)}}
+  \cup {V("C10", "ref_designates", [lost |-> Len(SessionConts(obs, h2.sess[r].u, r)) < Len(h2.sess[r].ids)]) : r \in {r \in DOMAIN h2.sess : h2.sess[r].live /\ ~ExactlyOnceAt(obs, h2, r)}}
 
 (* C03: the file of every subscriber, as read by the independent TS 32.297 summariser *)
 FileOK(f) ==
@@ -146,7 +146,7 @@ StepCreate ==
                      /\ Ev.result.seq = Ev.seq
      IN /\ pre' = obs /\ h' = h2
         /\ viol' = viol \cup StateClauses(obs, h2) \cup FileClauses(Ev.state)
-              \cup (IF ok /\ ~RefFresh(h, resp.ref) THEN {V("C10", "ref_unique", [ref |-> resp.ref])} ELSE {})
+              \cup (IF ok /\ ~RefFresh(h, resp.ref) THEN {V("C10", "ref_unique", [same_subscriber |-> h.sess[resp.ref].u = a.u])} ELSE {})
               \cup (IF contract THEN {} ELSE {V("C12", "create_contract", [status |-> resp.status])})
               \cup (IF ok /\ ~(\E i \in 1..Len(Ev.args.times) : OpTimeOK(newr.optime, Ev.args.times[i], Ev.args.tz))
                       THEN {V("C02", "opening_time", [tz |-> Ev.args.tz])} ELSE {})
@@ -176,7 +176,7 @@ StepUpdate ==
                                                             stale |-> a.ref \in DOMAIN h.sess])} ELSE {})
               \cup (IF known /\ partial /\ ~(\E i \in 1..Len(obs.ue[u].recs) :
                                                obs.ue[u].recs[i].ref = a.ref /\ obs.ue[u].recs[i].cause = 1)
-                      THEN {V("C02", "cause_partial", [ref |-> a.ref])} ELSE {})
+                      THEN {V("C02", "cause_partial", [split |-> grew])} ELSE {})
         /\ div' = div \cup (IF Explainable(pre, u, a.usage) THEN DivOf(Update(pre, a), obs, resp) ELSE {D("unmodelled")})
   /\ UNCHANGED meta
 
@@ -185,7 +185,8 @@ StepRelease ==
   /\ LET obs  == ObsSt(Ev.state)
          resp == RespObs
          u    == Ev.args.u
-         a    == [u |-> u, ref |-> Ev.args.ref, usage |-> ConvUsage(Ev.args.usage), trig |-> Ev.args.trig]
+         grew == u \in DOMAIN obs.ue /\ u \in DOMAIN pre.ue /\ Len(obs.ue[u].recs) > Len(pre.ue[u].recs)
+         a    == [u |-> u, ref |-> Ev.args.ref, usage |-> ConvUsage(Ev.args.usage), trig |-> Ev.args.trig, split |-> grew]
          known == RefKnownH(u, a.ref)
          \* the release is "done" when it was answered 2xx -- or, as the code stands, when the record was closed
          acted == known /\ (resp.status = 204 \/ (resp.status = 400 /\ DEV_Release400))
@@ -201,7 +202,7 @@ StepRelease ==
                                                             stale |-> a.ref \in DOMAIN h.sess])} ELSE {})
               \cup (IF acted /\ ~(LET is == {i \in 1..Len(obs.ue[u].recs) : obs.ue[u].recs[i].ref = a.ref}
                                  IN is # {} /\ obs.ue[u].recs[CHOOSE i \in is : \A j \in is : j <= i].cause = 0)
-                      THEN {V("C02", "cause_normal", [ref |-> a.ref])} ELSE {})
+                      THEN {V("C02", "cause_normal", [split |-> grew])} ELSE {})
         /\ div' = div \cup (IF Explainable(pre, u, a.usage) THEN DivOf(Release(pre, a), obs, resp) ELSE {D("unmodelled")})
   /\ UNCHANGED meta
 
